@@ -122,7 +122,7 @@ class Arr(object):
 
     def __len__(self):
         if not self.shape:
-            raise AnalysisError('len() of 0-d array')
+            raise InterpTypeError('len() of unsized object')
         return self.shape[0]
 
     def items(self):
@@ -136,7 +136,7 @@ class Arr(object):
 
     def __iter__(self):
         if not self.shape:
-            raise AnalysisError('iteration over 0-d array')
+            raise InterpTypeError('iteration over a 0-d array')
         for i in range(self.shape[0]):
             yield self[i]
 
